@@ -303,7 +303,7 @@ BROKER_ASSUMPTIONS = [
     "packets are compared decoded (field level) with the harness's own reference codec; byte-level codec properties are C03/C04",
     "fan-out order is a Go map order: runs of consecutive PUBLISH packets are compared as multisets; the identifier an in-process callback sees is not compared",
     "`unsubrace` events: the other connection's PUBLISH is written the moment the harness's client of the unsubscribing connection has parsed the UNSUBACK, with no barrier in between, and the line is observed behind barriers on the publisher, then the unsubscriber, then everybody else; a broker that acknowledges before it has removed the filters is caught dynamically only if its removal loop outlasts the harness's reaction time (0.1-0.5 ms against 5-10 ms for the generated lists of 600-1000 filters of 70-100 levels) - the statement order itself is a regenerated fact (C07_ack_follows_effects)",
-    "`srvsubrepub` callbacks call Server.Publish (same payload, QoS 0, RETAIN 0) from inside the callback; the Lean driver performs the nested publish right behind the delivery on the state after the step (such a publish draws no identifier and retains nothing, so it commutes with the rest of the step), follows at most 4 nested levels (the generators keep targets disjoint from the republishing callbacks' filters), and leaves the line open when a republishing callback holds several matching subscriptions",
+    "`srvsubrepub` callbacks call Server.Publish (same payload, QoS 0, RETAIN 0) from inside the callback; the Lean driver performs the nested publish right behind the delivery on the state after the step (such a publish draws no identifier and retains nothing, so it commutes with the rest of the step), follows at most 4 nested levels (the generators keep targets disjoint from the republishing callbacks' filters), leaves the line open when a republishing callback holds several matching subscriptions, and republishes nothing for copies on topics beginning with '$' (which only the reference broker hands to a callback; such copies are not compared)",
     "`hsrace` events: while one is in progress the harness's authenticator holds every user name beginning with \"slow\" inside Authenticate (it signals the entry; released when the other connection has been observed to the end, at the latest after 5 s); the driver takes the other connection's first packet before the held CONNECT - the order in which the unchanged code completes them - and that the two handshakes share no state is what the event tests, not an assumption",
     "the identifier generated for a client that connects without one (auto- + 96 random bits from crypto/rand) never coincides with a client-supplied identifier or with another generated one: the model represents it by a byte string outside the set of acceptable supplied identifiers",
 ]
